@@ -496,7 +496,7 @@ SCond ==    \* visit_Condition
 \* what tal:repeat iterates over (RepeatDict.__call__: list(iterable), None -> ())
 \* strings are iterables of their characters; string values are tags, their
 \* lengths are given here (the concretiser's STR_TAGS)
-StrLen(s) == CASE s = "" -> 0 [] s = "h" -> 6 [] s = "h2" -> 12 [] OTHER -> 1
+StrLen(s) == CASE s = "" -> 0 [] s = "h" -> 6 [] s = "h2" -> 12 [] s = "q" -> 4 [] s = "pp" -> 3 [] s = "dg" -> 10 [] OTHER -> 1
 Iterable(v) == v.t \in {"none", "seq", "dict", "str", "bytes", "range"}
 ItemsOf(v) == CASE v.t = "none" -> <<>>
                 [] v.t = "seq"  -> v.vs
